@@ -85,8 +85,17 @@ func (tr *transport) handleMessage(r io.Reader) error {
 	}
 
 	ch := make(chan *callExchange)
-	tr.pendingFetch <- &pendingFetch{id: id, call: ch}
-	ex := <-ch
+	select {
+	case tr.pendingFetch <- &pendingFetch{id: id, call: ch}:
+	case <-tr.serveDone:
+		return io.ErrUnexpectedEOF
+	}
+	var ex *callExchange
+	select {
+	case ex = <-ch:
+	case <-tr.serveDone:
+		return io.ErrUnexpectedEOF
+	}
 	if ex == nil {
 		log.Printf("discard response #%d, type=%d", id, typ)
 		return nil
@@ -238,6 +247,9 @@ func (tr *transport) asyncCall(call *transportCall) error {
 	select {
 	case <-ctx.Done():
 		return ctx.Err()
+	case <-tr.serveDone:
+		// The serve loop has exited; nothing will take this call.
+		return io.ErrUnexpectedEOF
 	case tr.calls <- ex:
 	}
 	return nil
@@ -261,6 +273,14 @@ func (tr *transport) call(
 	case <-ctx.Done():
 		return ctx.Err()
 	case <-done:
+	case <-tr.serveDone:
+		// The serve loop fails every pending call before it closes
+		// serveDone; a call that is still not done was never taken.
+		select {
+		case <-done:
+		default:
+			return io.ErrUnexpectedEOF
+		}
 	}
 	return err
 }
